@@ -35,12 +35,12 @@ package grpcv3
 // the header view is keyed by canonical names
 //@ func canonicalizeHeaders
 //@   props C13
-//@   assert at call CanonicalHeaderKey#1: true
+//@   assert at call CanonicalHeaderKey#1@3ead5378.1: true
 
 // the body is what Envoy sent - as bytes (raw_body) or, without pack_as_bytes, as text (body) -
 // decoded according to the content type, once
 //@ func (*RequestContext).Body
 //@   props C13
 //@   ensures old(r.savedBody) != nil ==> ret0 == old(r.savedBody)
-//@   assert at call Decode#1: len(r.reqRawBody) != 0 ==> callarg1 == r.reqRawBody
-//@   assert at call Decode#1: len(r.reqRawBody) == 0 ==> len(callarg1) == len(r.reqBody)
+//@   assert at call Decode#1@6e266fcc.1: len(r.reqRawBody) != 0 ==> callarg1 == r.reqRawBody
+//@   assert at call Decode#1@6e266fcc.1: len(r.reqRawBody) == 0 ==> len(callarg1) == len(r.reqBody)
